@@ -357,8 +357,12 @@ func (sp *Specs) loadFile(path string) error {
 			case strings.HasPrefix(rest2, "decreases"):
 				kind = "decreases"
 				rest2 = rest2[len("decreases"):]
+			case strings.HasPrefix(rest2, "step"):
+				// checked at every back edge of the loop (what one complete iteration has done), never assumed
+				kind = "step"
+				rest2 = rest2[len("step"):]
 			default:
-				return fmt.Errorf("%s: loop clause must be invariant or decreases", src)
+				return fmt.Errorf("%s: loop clause must be invariant, decreases or step", src)
 			}
 			props, text := takeProps(rest2)
 			l := cur.Loops[k]
